@@ -21,7 +21,7 @@ from vf import common
 
 CHECK = dict(
     id="C28", level="exploration",
-    rule=("random histories of 10-60 public API calls over 4 names, 4 offsets and the LocKeys returned so "
+    rule=("random histories of 10-60 public API calls over 4 names (incl. the empty name), 5 offsets (incl. 0, 2**32-1, 2**64-1) and the LocKeys returned so "
           "far (live, removed, foreign): add_location strict/non-strict with name and/or offset, "
           "get_or_create_*, add/remove_location_name, set_location_offset with/without force, "
           "unset_location_offset, remove_location, merge of a second independently built database; "
@@ -36,8 +36,10 @@ CHECK = dict(
                "subclass of LocationDB"),
 )
 
-NAMES = ["n0", "n1", "n2", "n3"]
-OFFSETS = [0x10, 0x20, 0x30, 0x40]
+# small pools so that collisions are the norm; they include the values a truthiness test or a width
+# assumption would mishandle (offset 0, the empty name, 2**32-1, 2**64-1)
+NAMES = ["n0", "n1", "", "loc_0000000000000010"]
+OFFSETS = [0, 1, 0x10, 2 ** 32 - 1, 2 ** 64 - 1]
 
 
 def shards(tier, seed, scale):
